@@ -294,6 +294,7 @@ func TestReadback(t *testing.T) {
 	r := vf.Start(t, prop, "readback")
 	rapid.Check(t, func(t *rapid.T) {
 		o := j5sgen.DefaultOpts()
+		o.UndocumentedRules = true
 		o.MaxPackages, o.MaxFiles = 2, 2
 		o.Noise = false
 		b, classes := j5sgen.Draw(t, o)
